@@ -959,16 +959,17 @@ void random_case(vf::Rng& rng)
         if (len > N) { len = N; }
         for (std::size_t i = 0; i < len; ++i) { start.push_back((int)rng.below(4)); }
         unsigned which = (unsigned)rng.below(4);
+        unsigned steps = rng.chance(1, 8) ? 320u : 40u; // a share of long histories: many fill/drain cycles on one object
         if (which <= 1) {
             SV<N> env(ch, start);
-            for (unsigned s = 0; s < 40; ++s) { env.apply((unsigned)rng.below(SV<N>::kFamilies)); }
+            for (unsigned s = 0; s < steps; ++s) { env.apply((unsigned)rng.below(SV<N>::kFamilies)); }
         } else if (which == 2) {
             IV<N> env(ch);
-            env.history(start, 40);
+            env.history(start, steps);
         } else {
-            if constexpr (N > 0) { ST<N>::run(ch, 40); }
+            if constexpr (N > 0) { ST<N>::run(ch, steps); }
         }
-        if (vf::want_sample("random-history")) { vf::sample("random-history", "elem=%s cap=%zu start-len=%zu subject=%u then 40 random operations", TNAME, N, len, which); }
+        if (vf::want_sample("random-history")) { vf::sample("random-history", "elem=%s cap=%zu start-len=%zu subject=%u then %u random operations", TNAME, N, len, which, steps); }
     }
     if constexpr (kTracked) { vf::expect_no_live("end of case"); }
 }
@@ -999,7 +1000,7 @@ vf::Spec spec(vf::Tier t)
 {
     vf::Spec s;
     for (std::size_t i = 0; i < kNCaps; ++i) { s.n_enum += Caps::n_enum_for(i); }
-    s.n_random   = (t == vf::Tier::thorough ? 8000 : 500) * kNCaps;
+    s.n_random   = (t == vf::Tier::thorough ? 60000 : 500) * kNCaps;
     s.batch      = 8;
     s.exhaustive = true;
     return s;
